@@ -347,3 +347,18 @@ pub fn renderer<'a>(t: &'a Table) -> Renderer<'a> {
 /// FlatEx / DeepEx over f64 with default operators
 pub type F64Flat = FlatEx<f64>;
 pub type F64Deep<'a> = DeepEx<'a, f64>;
+
+/// "2..=140, 254..=258" for a sorted list of numbers
+pub fn ranges_text(v: &[usize]) -> String {
+    let mut out: Vec<String> = Vec::new();
+    let mut i = 0;
+    while i < v.len() {
+        let mut j = i;
+        while j + 1 < v.len() && v[j + 1] == v[j] + 1 {
+            j += 1;
+        }
+        out.push(if j > i { format!("{}..={}", v[i], v[j]) } else { v[i].to_string() });
+        i = j + 1;
+    }
+    out.join(", ")
+}
